@@ -398,14 +398,16 @@ func (rs *rowStore) safeUpdate(ms *memstore, insert *insert, vals encoding.TSPar
 func (rs *rowStore) iterate(ctx context.Context, outFields core.Fields, includeMemStore bool, onValue func(bytemap.ByteMap, []encoding.Sequence) (more bool, err error)) (common.OffsetsBySource, error) {
 	guard := core.Guard(ctx)
 
-	rs.mx.RLock()
+	// Capture the file store and register as a reader of it in one critical
+	// section: with the registration in a critical section of its own, flushes
+	// and removeOldFiles could run in between and delete the captured file, which
+	// fileStore.iterate then silently treats as "no filestore yet".
+	rs.mx.Lock()
 	fs := rs.fileStore
 	var ms *memstore
 	if includeMemStore {
 		ms = rs.memStore.copy()
 	}
-	rs.mx.RUnlock()
-	rs.mx.Lock()
 	rs.iterationsInProgress[fs.filename]++
 	rs.mx.Unlock()
 	defer func() {
